@@ -2,7 +2,7 @@
 # usage: tools/run_all.sh [quick|thorough] [ids...]   -- runs the registered checks on /repo as it is and prints a summary
 cd "$(dirname "$0")/.." || exit 3
 TIER=${1:-quick}; shift
-IDS=${*:-C01 C02 C03 C04 C07 C08 C10 C11 C12 C13 C14 C15 C16 C17 C18 C19 C20}
+IDS=${*:-C01 C02 C03 C04 C06 C07 C08 C09 C10 C11 C12 C13 C14 C15 C16 C17 C18 C19 C20}
 mkdir -p /tmp/runall
 for id in $IDS; do
   s=$(date +%s)
